@@ -38,18 +38,31 @@ def harnesses(tier, seed):
     hs = []
     if tier == "quick":
         plan = [("reduce_nc", "MF"), ("reduce_sub", "FMF"), ("fold_nc", "FLF"), ("count", "F"), ("find", "FM"), ("first", "FL"),
-                ("collect_vec", "M"), ("collect_vec", "MF"), ("collect_vec", "FMF"), ("collect_vec", "FLF"), ("collect", "MF"),
+                ("collect_vec", "M"), ("collect_vec", "MF"), ("collect_vec", "FMF"), ("collect", "MF"),
                 ("all", "E"), ("min_by_key", "M")]
         for term, ty in plan:
             src = "vec" if (ty in ("E", "F") and term not in ("count", "find", "first", "any", "all", "collect_vec", "collect")) else "slice"
-            hs.append(h(term, ty, src, 2 if (ty == "FLF" and term.startswith("collect")) else 3))
+            hs.append(h(term, ty, src, 3))
+        # sequential flat_map collect: with symbolic fan-out it costs ~8 min (thorough tier); here with fixed fan-outs
+        for k in ((2, 1), (0, 2), (1, 1)):
+            hs.append(collect_harness("c09", "collect_vec", "FLF", "slice", 2, 1, 1, None, k, chunk_expr="cs",
+                                      extra_pre="    let cs: usize = kani::any();\n",
+                                      extra_post='    assert!(model::scopes() == 0, "sequential mode entered a thread scope");\n'))
     else:
         for ty in ("E", "M", "F", "MF", "FM", "FMF", "FL", "FLF"):
             for term in TERMS_VAL:
+                if ty == "FLF" and term == "collect_vec":
+                    hs.append(h(term, ty, "slice", 2))
+                    continue
                 needs_val = term in ("reduce_nc", "reduce_sub", "fold_nc", "min_by_key")
                 src = "vec" if (ty in ("E", "F") and needs_val) else "slice"
                 hs.append(h(term, ty, src, 4))
             for src in ("vec", "range", "iter", "iterf", "deque"):
                 for term in ("count", "collect_vec", "find"):
-                    hs.append(h(term, ty, src, 2 if (ty == "FLF" and term.startswith("collect")) else 3))
+                    hs.append(h(term, ty, src, 3))
+        # sequential flat_map collect: with symbolic fan-out it costs ~8 min (thorough tier); here with fixed fan-outs
+        for k in ((2, 1), (0, 2), (1, 1)):
+            hs.append(collect_harness("c09", "collect_vec", "FLF", "slice", 2, 1, 1, None, k, chunk_expr="cs",
+                                      extra_pre="    let cs: usize = kani::any();\n",
+                                      extra_post='    assert!(model::scopes() == 0, "sequential mode entered a thread scope");\n'))
     return hs
